@@ -6,28 +6,65 @@ import (
 	"flag"
 	"fmt"
 	"os"
+	"runtime"
+	"runtime/debug"
+	"runtime/pprof"
 	"strconv"
 	"strings"
+	"sync"
 	"time"
 
 	"verif/symgo/interp"
 )
 
 func main() {
+	if pf := os.Getenv("SYMGO_PROF"); pf != "" {
+		f, _ := os.Create(pf)
+		pprof.StartCPUProfile(f)
+		defer pprof.StopCPUProfile()
+		code := realMain()
+		pprof.StopCPUProfile()
+		os.Exit(code)
+	}
+	if pf := os.Getenv("SYMGO_MUTEXPROF"); pf != "" {
+		runtime.SetMutexProfileFraction(5)
+		runtime.SetBlockProfileRate(10000)
+		code := realMain()
+		f, _ := os.Create(pf)
+		pprof.Lookup("mutex").WriteTo(f, 0)
+		f.Close()
+		f, _ = os.Create(pf + ".block")
+		pprof.Lookup("block").WriteTo(f, 0)
+		f.Close()
+		os.Exit(code)
+	}
+	if pf := os.Getenv("SYMGO_MEMPROF"); pf != "" {
+		runtime.MemProfileRate = 4096
+		code := realMain()
+		f, _ := os.Create(pf)
+		pprof.Lookup("allocs").WriteTo(f, 0)
+		f.Close()
+		os.Exit(code)
+	}
+	os.Exit(realMain())
+}
+
+func realMain() int {
+	debug.SetGCPercent(400)
 	if len(os.Args) < 2 {
 		fmt.Fprintln(os.Stderr, "usage: symgo run|check|replay ...")
-		os.Exit(2)
+		return 2
 	}
 	switch os.Args[1] {
 	case "run":
-		os.Exit(cmdRun(os.Args[2:]))
+		return cmdRun(os.Args[2:])
 	case "check":
-		os.Exit(cmdCheck(os.Args[2:]))
+		return cmdCheck(os.Args[2:])
 	case "replay":
-		os.Exit(cmdReplay(os.Args[2:]))
+		return cmdReplay(os.Args[2:])
 	}
 	fmt.Fprintln(os.Stderr, "unknown command", os.Args[1])
-	os.Exit(2)
+	return 2
 }
 
 type paramFlag map[string]int64
@@ -51,7 +88,7 @@ func cmdRun(args []string) int {
 	fs := flag.NewFlagSet("run", flag.ExitOnError)
 	pkg := fs.String("pkg", "", "package pattern relative to the repository, e.g. ./metrics")
 	fn := fs.String("func", "", "harness function")
-	workers := fs.Int("workers", 16, "parallel workers")
+	workers := fs.Int("workers", 8, "parallel workers")
 	sched := fs.Bool("sched", false, "explore schedules")
 	loopcap := fs.Int("loopcap", 64, "solver-decided iterations per loop head")
 	maxpaths := fs.Int("maxpaths", 200000, "path budget")
@@ -63,6 +100,18 @@ func cmdRun(args []string) int {
 	params := paramFlag{}
 	fs.Var(params, "p", "harness parameter k=v (repeatable)")
 	fs.Parse(args)
+	if os.Getenv("SYMGO_DBGZERO") != "" {
+		var mu sync.Mutex
+		cnt := map[string]int64{}
+		interp.DebugZero = func(t string, n int64) { mu.Lock(); cnt[t] += n; mu.Unlock() }
+		defer func() {
+			for k, v := range cnt {
+				if v > 100000 {
+					fmt.Println("ZERO", k, v)
+				}
+			}
+		}()
+	}
 	t0 := time.Now()
 	l, err := load([]string{*pkg}, *goarch)
 	if err != nil {
